@@ -322,16 +322,18 @@ def fold_structure_call(repo: Repo) -> dict | None:
     def ftype(kind: str, size: int) -> Sym:
         return Sym(f"{kind}{size}", {"size": size, "is_bytes": kind == "char"})
 
-    def fld(name: str, t: Sym) -> Sym:
-        return Sym(f"field:{name}", {"_name": name, "name": name, "type": t})
+    def fld(name: str, t: Sym, bits: int | None = None) -> Sym:
+        return Sym(f"field:{name}", {"_name": name, "name": name, "type": t, "bits": bits, "offset": 0, "alignment": 1})
 
     layouts = {
         "one char[4] field": [fld("magic", ftype("char", 4))],
         "char[4] then uint32": [fld("magic", ftype("char", 4)), fld("version", ftype("uint", 4))],
         "one uint32 field": [fld("version", ftype("uint", 4))],
         "no fields": [],
+        "one char field": [fld("c", ftype("char", 1))],
+        "one 4-bit field with char storage (char a:4)": [fld("a", ftype("char", 1), 4)],
     }
-    arglists = {"4 bytes": (b"abcd",), "6 bytes": (b"abcdef",), "no arguments": (), "an int": (5,), "a 4-byte bytearray": (bytearray(b"abcd"),),
+    arglists = {"1 byte": (b"!",), "4 bytes": (b"abcd",), "6 bytes": (b"abcdef",), "no arguments": (), "an int": (5,), "a 4-byte bytearray": (bytearray(b"abcd"),),
                 "a 4-byte memoryview": (memoryview(b"abcd"),)}
     out: dict = {"cases": 0, "bad": []}
     try:
@@ -374,7 +376,7 @@ def fold_structure_call(repo: Repo) -> dict | None:
                 kinds = [t[0] for t in trace if t[0] in ("init", "parse")]
                 # only an immutable bytes object may be adopted as the value; a bytearray / memoryview must be parsed (the value would alias the caller's buffer)
                 single_bytes = len(fields) == 1 and fields[0].attrs["type"].attrs["is_bytes"] and args and isinstance(args[0], bytes) \
-                    and len(args[0]) == fields[0].attrs["type"].attrs["size"]
+                    and len(args[0]) == fields[0].attrs["type"].attrs["size"] and not fields[0].attrs["bits"]
                 want = ["init"] if (single_bytes or not args) else ["parse"]
                 out["cases"] += 1
                 if kinds != want:
@@ -705,6 +707,8 @@ def fold_base_array(repo: Repo) -> dict | None:
             "x[3] given 3 elements": ({"num_entries": 3, "null_terminated": False, "dynamic": False}, [1, 2, 3], "_write_array"),
             "x[3] given 2 elements": ({"num_entries": 3, "null_terminated": False, "dynamic": False}, [1, 2], "raise"),
             "x[3] given no elements": ({"num_entries": 3, "null_terminated": False, "dynamic": False}, [], "raise"),
+            "x[3] given 4 elements": ({"num_entries": 3, "null_terminated": False, "dynamic": False}, [1, 2, 3, 4], "raise"),
+            "x[1] given 2 elements": ({"num_entries": 1, "null_terminated": False, "dynamic": False}, [1, 2], "raise"),
             "x[0] given no elements": ({"num_entries": 0, "null_terminated": False, "dynamic": False}, [], "_write_array"),
             "x[n] given 4 elements": ({"num_entries": expression("n", 4), "null_terminated": False, "dynamic": True}, [1, 2, 3, 4], "_write_array"),
             "x[] given 2 elements": ({"num_entries": None, "null_terminated": True, "dynamic": True}, [1, 2], "_write_0"),
@@ -877,6 +881,70 @@ def fold_generic_read_array(repo: Repo) -> dict | None:
         return None
 
 
+def fold_generic_write_array(repo: Repo) -> dict | None:
+    """MetaType._write_array / _write_0 (the slots every type without its own bulk writer inherits) on a model element type: every element - and for
+    the null-terminated form the type's default as terminator - is written by the element writer, in order, *on the caller's stream* at the
+    position the previous element left it (an element that pads to an absolute alignment must see the real position); the caller's list is left as
+    it was; the byte count is the sum of what the element writer reports."""
+    wa = repo.func_opt("types/base.py", "MetaType._write_array")
+    w0 = repo.func_opt("types/base.py", "MetaType._write_0")
+    if wa is None or w0 is None:
+        return None
+    out: dict = {"cases": 0, "bad": []}
+    try:
+        base_env = {q: UserFunc(f.node) for q, f in repo.module("types/base.py").functions.items() if "." not in q}
+        for slot, fi in (("_write_array", wa), ("_write_0", w0)):
+            for start, entries in ((0, []), (0, ["e1"]), (3, ["e1", "e2", "e3"]), (5, ["e1", "e2"])):
+                log: list = []
+                pos = [start]
+
+                def raw_write(b, log=log, pos=pos):
+                    if len(b):
+                        log.append(("raw", pos[0], bytes(b)))
+                    pos[0] += len(b)
+                    return len(b)
+
+                stream = Sym("caller's stream", {}, {"write": Host(raw_write), "tell": Host(lambda pos=pos: pos[0])})
+
+                def elem_write(st, entry, log=log, pos=pos, stream=stream):
+                    # an element pads to a multiple of 4 of the absolute position, then takes 2 bytes
+                    pad = -pos[0] % 4 if st is stream else 0
+                    log.append(("elem", st is stream, pos[0] if st is stream else None, entry))
+                    if st is stream:
+                        pos[0] += pad + 2
+                    return pad + 2
+
+                def dumps(entry, log=log):
+                    log.append(("dumps", entry))
+                    return b"\x00\x00"
+
+                methods = {"_write": Host(elem_write), "dumps": Host(dumps), "__default__": Host(lambda: "<default>")}
+                cls = Sym("T", {"size": 2}, methods)
+                methods["_write_array"] = Host(lambda st, arr, cls=cls: Evaluator(dict(base_env), steps=4000).call_user(UserFunc(wa.node), [cls, st, arr], {}))
+                given = list(entries)
+                try:
+                    got = Evaluator(dict(base_env), steps=4000).call_user(UserFunc(fi.node), [cls, stream, given], {})
+                except Raised as e:
+                    got = f"raise {e}"
+                want_entries = entries + (["<default>"] if slot == "_write_0" else [])
+                want_log, p_, total = [], start, 0
+                for e_ in want_entries:
+                    want_log.append(("elem", True, p_, e_))
+                    pad = -p_ % 4
+                    p_ += pad + 2
+                    total += pad + 2
+                out["cases"] += 1
+                if log != want_log or got != total or given != entries:
+                    what = "the caller's list is changed" if given != entries else ("elements are not written by the element writer on the caller's stream, in order, "
+                                                                                    "each at the position the previous one left" if log != want_log else f"returns {got!r}, expected {total}")
+                    out["bad"].append((slot, f"{len(entries)} entries at position {start}", what, f"calls {log[:4]}"))
+        return out
+    except Refused:
+        return None
+    except (TypeError, KeyError, IndexError, ValueError, AttributeError):
+        return None
+
+
 def fold_input_predicates(repo: Repo) -> dict | None:
     """_is_buffer_type / _is_readable_type over kinds of input: exactly bytes, bytearray and memoryview are buffers; anything with read() is a
     stream - also when it exports a buffer as well (an mmap): the two call forms T(x) and T.read(x) test the predicates in different orders, so an
@@ -957,16 +1025,25 @@ def fold_union_proxies(repo: Repo) -> dict | None:
     origin_t = tsym("origin", True, [("x", u8), ("y", u8), ("pos", pos_t)])
     hdr_t = tsym("hdr", True, [("kind", u8), ("origin", origin_t)])
     anon_t = tsym("__anonymous_0__", True, [("lo", u8), ("hi", u8)])
-    union_t = tsym("U", True, [("__anonymous_0__", anon_t), ("hdr", hdr_t), ("word", u8)])
+    q_t = tsym("q", True, [("z", u8)])
+    alt_t = tsym("alt", True, [("b", u8), ("q", q_t)])
+    alt_t.attrs["is_union"] = True  # a nested union member: a Structure subclass as well, whose own structure member it has proxied itself
+    union_t = tsym("U", True, [("__anonymous_0__", anon_t), ("hdr", hdr_t), ("word", u8), ("alt", alt_t)])
 
     def value(t, **attrs):
         v = Sym(f"value:{t.attrs['__name__']}", {"__class__": t, **attrs})
         v.strict = False
         return v
 
+    union_cls = Sym("class:Union")
+
     def issub(t, k):
-        if k is struct_cls or (isinstance(k, tuple) and struct_cls in k):
+        if isinstance(k, tuple):
+            return any(issub(t, k_) for k_ in k)
+        if k is struct_cls:
             return isinstance(t, Sym) and bool(t.attrs.get("is_struct"))
+        if k is union_cls:
+            return isinstance(t, Sym) and bool(t.attrs.get("is_union"))
         raise Refused("issubclass against an unknown class")
 
     def getattr_(o, n, *d):
@@ -976,29 +1053,49 @@ def fold_union_proxies(repo: Repo) -> dict | None:
             return d[0]
         raise AttributeError(n)
 
+    proxy_cls = Sym("class:UnionProxy")
+    proxy_cls.strict = False  # the real class has no field tables: reading one raises AttributeError
+
     def proxy(union, attr, target):
-        p_ = Sym(f"proxy#{len(made)}", {"__union__": union, "__attr__": attr, "__target__": target})
+        p_ = Sym(f"proxy#{len(made)}", {"__union__": union, "__attr__": attr, "__target__": target, "__class__": proxy_cls})
         made.append(p_)
         return p_
+
+    proxy_host = Host(proxy)
+
+    def isinst(o, k):
+        ks = k if isinstance(k, tuple) else (k,)
+        return any(k_ is proxy_host and isinstance(o, Sym) and o.label.startswith("proxy#") for k_ in ks)
 
     try:
         pos = value(pos_t, y=7)
         origin = value(origin_t, x=1, y=2, pos=pos)
         hdr = value(hdr_t, kind=3, origin=origin)
         anon = value(anon_t, lo=4, hi=5)
-        u = value(union_t, **{"__anonymous_0__": anon, "hdr": hdr, "word": 9, "lo": 4, "hi": 5})
-        env = {"issubclass": Host(issub), "Structure": struct_cls, "getattr": Host(getattr_), "UnionProxy": Host(proxy),
-               "object": Sym("object", {}, {"__setattr__": Host(lambda o, n, v: o.attrs.__setitem__(n, v))}), "isinstance": Host(lambda o, k: False)}
+        qv = value(q_t, z=8)
+        alt = value(alt_t, b=6)
+        inner_proxy = Sym("proxy#inner", {"__union__": alt, "__attr__": "q", "__target__": qv, "__class__": proxy_cls})
+        alt.attrs["q"] = inner_proxy
+        u = value(union_t, **{"__anonymous_0__": anon, "hdr": hdr, "word": 9, "lo": 4, "hi": 5, "alt": alt})
+        env = {"issubclass": Host(issub), "Structure": struct_cls, "Union": union_cls, "getattr": Host(getattr_), "UnionProxy": proxy_host,
+               "object": Sym("object", {}, {"__setattr__": Host(lambda o, n, v: o.attrs.__setitem__(n, v))}), "isinstance": Host(isinst)}
         for q, f in repo.module("types/structure.py").functions.items():
             if "." not in q and q not in env:
                 env[q] = UserFunc(f.node, env)
-        Evaluator(env, steps=4000).call_user(UserFunc(px.node, env), [u], {})
+        try:
+            Evaluator(env, steps=4000).call_user(UserFunc(px.node, env), [u], {})
+        except AttributeError as e:
+            if "UnionProxy" not in str(e):
+                raise
+            out["bad"].append(("proxify", "the structure member of a nested union (already wrapped in the nested union's own proxy)", f"walked as if it were a structure: {e}",
+                               "taken over from the inner proxy (a union that holds a union with a structure member cannot be parsed otherwise)"))
+            return out
         out["cases"] += 1
 
         def is_proxy(v, attr, target):
             return isinstance(v, Sym) and v.label.startswith("proxy#") and v.attrs["__union__"] is u and v.attrs["__attr__"] == attr and v.attrs["__target__"] is target
 
-        for holder, name, attr, target in ((u, "__anonymous_0__", "__anonymous_0__", anon), (u, "hdr", "hdr", hdr), (hdr, "origin", "hdr", origin), (origin, "pos", "hdr", pos)):
+        for holder, name, attr, target in ((u, "__anonymous_0__", "__anonymous_0__", anon), (u, "hdr", "hdr", hdr), (hdr, "origin", "hdr", origin), (origin, "pos", "hdr", pos), (u, "alt", "alt", alt), (alt, "q", "alt", qv)):
             if not is_proxy(holder.attrs.get(name), attr, target):
                 got = holder.attrs.get(name)
                 out["bad"].append(("proxify", f"member '{name}' of {holder.label}", f"{got.label if isinstance(got, Sym) else got!r}"
@@ -1415,12 +1512,13 @@ def fold_update_fields(repo: Repo) -> dict | None:
         if anon_members is not None:
             t_attrs["is_struct"] = True
             t_attrs["fields"] = {m: Sym(f"member:{m}", {"name": m, "_name": m}) for m in anon_members}
-        return Sym(f"field:{name}", {"_name": name if anon_members is None else "__anon__", "name": name if anon_members is None else None,
+        return Sym(f"field:{name}", {"_name": name if anon_members is None else f"__{name}__", "name": name if anon_members is None else None,
                                      "type": Sym(f"type:{name}", t_attrs), "bits": None, "offset": None, "alignment": size or 1})
 
     lists = {
         "two scalars": lambda: [field("a", 1), field("b", 4)],
         "scalar, anonymous struct {x, y}, scalar": lambda: [field("a", 1), field("anon", 2, ["x", "y"]), field("b", 4)],
+        "two anonymous structs {x, y} and {p, q}": lambda: [field("anon", 2, ["x", "y"]), field("anon2", 2, ["p", "q"]), field("b", 4)],
         "two '_' members": lambda: [field("_", 1), field("_", 1), field("c", 2)],
         "duplicate name": lambda: [field("a", 1), field("a", 4)],
         "no fields": lambda: [],
@@ -1450,8 +1548,13 @@ def fold_update_fields(repo: Repo) -> dict | None:
                             raise Raised("TypeError('unsupported')")
                         return "<compiled reader>"
 
-                    cls = Sym("cls:S", {"__compiled__": bool(compiled), "__align__": "<the class's align flag>", "cs": Sym("cs"), "__name__": "S", "kind": kind},
-                              {"_calculate_size_and_offsets": Host(calc_host)})
+                    # the class as the previous commit left it: nothing of that state may flow into the new class dict
+                    stale = Sym("field:stale", {"_name": "stale", "name": "stale", "type": Sym("type:stale", {"size": 64, "alignment": 64}), "bits": None, "offset": 0,
+                                                "alignment": 64})
+                    previous = {} if is_meta else {"size": 99, "alignment": 64, "dynamic": True, "fields": {"stale": stale}, "lookup": {"stale": stale},
+                                                   "__fields__": [stale]}
+                    cls = Sym("cls:S", {"__compiled__": bool(compiled), "__align__": "<the class's align flag>", "cs": Sym("cs"), "__name__": "S", "kind": kind,
+                                        **previous}, {"_calculate_size_and_offsets": Host(calc_host)})
 
                     def issub(c, k):
                         if k is type_marker:
@@ -1467,6 +1570,25 @@ def fold_update_fields(repo: Repo) -> dict | None:
                             return isinstance(o, Sym) and bool(o.attrs.get("is_struct"))
                         raise Refused("isinstance against another class")
 
+                    def sym_getattr(o, n, *d):
+                        if isinstance(o, Sym) and n in o.attrs:
+                            return o.attrs[n]
+                        if d:
+                            return d[0]
+                        raise Raised(f"AttributeError({n!r})")
+
+                    def sym_setattr(o, n, v):
+                        if not isinstance(o, Sym):
+                            raise Refused("setattr on a non-symbolic object")
+                        o.attrs[n] = v
+
+                    def attrgetter_(*paths):
+                        def get(o, path):
+                            for part in path.split("."):
+                                o = sym_getattr(o, part)
+                            return o
+                        return Host(lambda o: get(o, paths[0]) if len(paths) == 1 else tuple(get(o, p_) for p_ in paths))
+
                     gen = {n: Host(lambda names, n=n: (n, list(names))) for n in ("_generate__bool__", "_generate__eq__", "_generate__hash__")}
                     gen.update({n: Host(lambda fl, n=n: (n, [f.attrs["_name"] for f in fl])) for n in ("_generate_structure__init__", "_generate_union__init__")})
                     compiler = Sym("compiler", {}, {"Compiler": Host(lambda cs: Sym("Compiler", {}, {"compile_read": Host(compile_read)}))})
@@ -1474,11 +1596,12 @@ def fold_update_fields(repo: Repo) -> dict | None:
                            "issubclass": Host(issub), "isinstance": Host(isinst), "type": type_marker, "UnionMetaType": union_meta, "StructureMetaType": struct_meta,
                            "Union": Sym("Union", {"__eq__": "<Union.__eq__>"}), "Structure": Sym("Structure", {"_read": Sym("read", {"__func__": "<Structure._read>"})}),
                            "classmethod": Host(lambda f: ("classmethod", f)), "property": Host(lambda g_, s_: ("property", g_, s_)),
-                           "attrgetter": Host(lambda a: ("get", a)), "attrsetter": Host(lambda a: ("set", a)), "__imports__": {"compiler": compiler}, **gen}
+                           "attrgetter": Host(attrgetter_), "getattr": Host(sym_getattr), "setattr": Host(sym_setattr), "__imports__": {"compiler": compiler}, **gen}
                     out["cases"] += 1
                     case = f"{kind}, compiled={compiled}, {label}"
                     try:
-                        cd = Evaluator(env, steps=8000).call_user(UserFunc(fi.node), [cls, fields, "<align argument>"], {})
+                        ev_ = Evaluator(env, steps=8000)
+                        cd = ev_.call_user(UserFunc(fi.node), [cls, fields, "<align argument>"], {})
                     except Raised as e:
                         if label == "duplicate name" and str(e).startswith("ValueError"):
                             continue
@@ -1511,6 +1634,40 @@ def fold_update_fields(repo: Repo) -> dict | None:
                     for f in fields:
                         if f.attrs["type"].attrs.get("is_struct") and not all(m in cd for m in f.attrs["type"].attrs["fields"]):
                             out["bad"].append((case, "no accessor properties for the members of the anonymous structure", ""))
+                    # the accessor properties, called on a model instance: each reads and writes its own member of its own anonymous structure
+                    anon = [f for f in fields if f.attrs["type"].attrs.get("is_struct")]
+                    if anon and all(m in cd for f in anon for m in f.attrs["type"].attrs["fields"]):
+                        def instance():
+                            k = iter(range(10, 100))
+                            return Sym("instance", {f.attrs["_name"]: Sym(f"value:{f.attrs['_name']}", {m: next(k) for m in f.attrs["type"].attrs["fields"]}) for f in anon})
+
+                        def apply(fn, *a):
+                            if isinstance(fn, UserFunc):
+                                return ev_.call_user(fn, list(a), {})
+                            if isinstance(fn, Host):
+                                return fn.fn(*a)
+                            if callable(fn) and type(fn).__name__ == "LambdaFn":
+                                return fn(*a)
+                            raise Refused("accessor is not a function of the fragment")
+
+                        for f in anon:
+                            for m in f.attrs["type"].attrs["fields"]:
+                                prop = cd[m]
+                                if not (isinstance(prop, tuple) and len(prop) == 3 and prop[0] == "property"):
+                                    out["bad"].append((case, f"accessor for '{m}' is not a property with a getter and a setter", ""))
+                                    continue
+                                inst = instance()
+                                want_v = inst.attrs[f.attrs["_name"]].attrs[m]
+                                got_v = apply(prop[1], inst)
+                                if got_v != want_v:
+                                    out["bad"].append((case, f"accessor '{m}' of the anonymous member {f.attrs['_name']} reads {got_v!r}", f"{want_v!r}"))
+                                before = {a_: dict(v_.attrs) for a_, v_ in inst.attrs.items()}
+                                apply(prop[2], inst, 777)
+                                after = {a_: dict(v_.attrs) if isinstance(v_, Sym) else v_ for a_, v_ in inst.attrs.items()}
+                                before[f.attrs["_name"]][m] = 777
+                                if after != before:
+                                    out["bad"].append((case, f"assigning '{m}' (a member of the anonymous structure {f.attrs['_name']}) on the parent leaves {after}",
+                                                       f"{before}: the assignment is lost or lands in another member"))
                     offs = [e for e in events if e[0] == "offsets"]
                     comp = [e for e in events if e[0] == "compile"]
                     if len(offs) != 1 or not offs[0][1] or offs[0][2] != "<align argument>":
